@@ -764,7 +764,7 @@ fn main() {
     report.floor("epoch_changes", c);
     report.floor("epochs_with_emission", c / 4);
     report.floor("stake_unstake_round_trips", c / 4);
-    report.floor("claim_ok", c / 8);
+    report.floor("claim_ok", c / 16);
     report.floor("scripted_zero_supply_histories", 1);
     cw.write(&args.out, args.shards).unwrap();
     report.write(&args.out).unwrap();
